@@ -234,7 +234,8 @@ Inductive site :=
 | SNameEmpty     (* renaming an initializer to "" raises after the rename and after the entry was removed *)
 | SGExtend       (* Graph.extend: nodes before the rejected one keep graph pointer and names *)
 | SGInsert       (* Graph.insert_after/insert_before: idem, also when the reference node is not in the graph *)
-| SNodeOutputs   (* Node(outputs=...) accepts repeated values and graph inputs / initializers *)
+| SNodeOutputsDup   (* Node(outputs=[x, x]) accepted a repeated value (both positions claim the last index) *)
+| SNodeOutputsOwned (* Node(outputs=...) accepts a graph input / initializer: it gets a producer (I6) *)
 | SGraphNew.     (* Graph(...) constructor rejected midway *)
 Definition cfg := site -> bool.
 Definition all_fixed : cfg := fun _ => true.
@@ -514,8 +515,10 @@ Definition new_node (c : cfg) h n (xs : list (option vid)) (o : outspec) (g : op
   let bad_num := match o with OGiven vs (Some k) => negb (k =? length vs) | _ => false end in
   if bad_num then R h ValueError else
   if existsb (hp h) ovs then R h ValueError else
-  (* FIXED: also reject repeated outputs and outputs that are graph inputs / initializers *)
-  if c SNodeOutputs && (negb (nodupb ovs) || existsb (fun v => flag KIn (how h) v || vinit (how h) v) ovs) then R h ValueError else
+  (* FIXED (SNodeOutputsDup): repeated outputs rejected;  FIXED (SNodeOutputsOwned, not applied to /repo: an existing
+     test builds a node whose output is a subgraph initializer): graph inputs / initializers rejected as outputs *)
+  if (c SNodeOutputsDup && negb (nodupb ovs))
+     || (c SNodeOutputsOwned && existsb (fun v => flag KIn (how h) v || vinit (how h) v) ovs) then R h ValueError else
   let h1 := with_po h (set_outs (po_adopt (hpo h) n 0 ovs) n ovs) in
   let h2 := with_nm h1 (nm_bump_n (nm_set_nname (hnm h1) n nm) n) in
   let h3 := match o with OFresh vs => bump_vs h2 vs | _ => h2 end in
@@ -715,15 +718,19 @@ Close Scope Z_scope.
    false = the code still has the defect (the model reproduces it); true = the repair of proposed_fixes/ is applied. *)
 Definition current_cfg : cfg := fun s =>
   match s with
-  | SIODelItem => false
-  | SIOIMul => false
-  | SIOExtend => false
-  | SIOInsert => false
-  | SIOSetItem => false
-  | SInitSetItem => false
-  | SNameEmpty => false
-  | SGExtend => false
-  | SGInsert => false
-  | SNodeOutputs => false
-  | SGraphNew => false
+  | SIODelItem => true          (* /repo c5c2382 *)
+  | SIOIMul => true             (* /repo c5c2382 *)
+  | SIOExtend => true           (* /repo c5c2382 *)
+  | SIOInsert => true           (* /repo c5c2382 *)
+  | SIOSetItem => true          (* /repo c5c2382 *)
+  | SInitSetItem => true        (* /repo c5c2382 *)
+  | SNameEmpty => true          (* /repo dff454e *)
+  | SGExtend => true            (* /repo dff454e *)
+  | SGInsert => true            (* /repo dff454e *)
+  | SNodeOutputsDup => true     (* /repo dff454e *)
+  | SNodeOutputsOwned => false  (* open: known finding node-output-owned *)
+  | SGraphNew => false          (* open: known finding graph-ctor-partial *)
   end.
+
+(* the code as it was before any repair (pinned commit of the design phase): every defect present *)
+Definition original_cfg : cfg := fun _ => false.
